@@ -1,7 +1,7 @@
 SPECIFICATION Spec
 CONSTANTS
   Readers = {"r1", "r2"}
-  XE = {"E1", "E2"}
+  XE = {"E2"}
   XT = {"Tda", "Tp", "Tab"}
   MaxMut = 3
   MaxRead = 2
